@@ -16,7 +16,8 @@ import secpworker
 from props import c08_pycurve
 
 PROP = "C08"
-MODS = ["EmbitModel.Props.C08", "EmbitModel.Props.C08X", "EmbitModel.Props.C08Y", "EmbitModel.Props.C08Z", "EmbitModel.Props.C08W"]
+MODS = ["EmbitModel.Props.C08", "EmbitModel.Props.C08X", "EmbitModel.Props.C08Y", "EmbitModel.Props.C08Z", "EmbitModel.Props.C08W",
+        "EmbitModel.Props.C08V"]
 
 N = 0xFFFFFFFFFFFFFFFFFFFFFFFFFFFFFFFEBAAEDCE6AF48A03BBFD25E8CD0364141
 P = 2**256 - 2**32 - 977
@@ -429,6 +430,61 @@ def gen_recoverable(x, k):
     x.case("ecdsa_sign_recoverable", [be(1)[:31], be(1)], note="length")
 
 
+def toy_run(triples):
+    """the REAL ecdsa_sign_recoverable code over the toy curve (harness/toy_signrec.py, a subprocess: it replaces
+    module constants of embit.util.key)"""
+    import subprocess
+    import sys
+    p = subprocess.run([sys.executable, os.path.join(os.path.dirname(os.path.dirname(os.path.abspath(__file__))),
+                                                     "toy_signrec.py")],
+                       input=json.dumps(triples), capture_output=True, text=True, timeout=600)
+    if p.returncode != 0:
+        raise RuntimeError("toy_signrec.py failed: " + p.stderr[-400:])
+    return json.loads(p.stdout)
+
+
+def gen_toy_signrec(x, k):
+    """C08V: a nonce point with x(R) >= n — the region where the recovery-id search of the old code differed from
+    libsecp256k1 — CANNOT be constructed through the public API on secp256k1 (ecdsa_sign_recoverable takes no nonce
+    function; a nonce with a chosen point is a discrete logarithm; probability 2^-128 per signature). So the region is
+    exercised on the toy curve y^2 = x^3 + 7 / F_43 (n = 31; 14 of the 30 nonce points have x >= n), where the real
+    python code (curve constants replaced, nonce fixed) is compared with the model of the fixed code
+    (`toy.py.…` = ecdsaSignRecoverableDirect) and with libsecp256k1's contract (`toy.contract.…`) over the same curve."""
+    c = x.c
+    n = 31
+    triples = []
+    for kk in range(1, n):                       # every nonce point, boundary messages / keys
+        triples.append([kk, x.rng.randrange(0, n), x.rng.randrange(1, n)])
+        triples.append([kk, x.rng.choice([0, 1, n - 1, n, n + 1, 2**256 - 1]), x.rng.choice([1, 2, n - 2, n - 1])])
+    triples += [[3, 1, 1], [2, 5, 3], [15, 6, 3], [2, 6, 3], [2, 1, 3]]          # the witness points of Props/C08X
+    triples += [[3, 1, 0], [3, 1, n], [3, 1, n + 1], [3, 1, 2**256 - 1]]          # invalid keys
+    for _ in range(20 * k):
+        triples.append([x.rng.randrange(1, n), x.rng.randrange(0, 2 * n), x.rng.randrange(1, n)])
+    seen, uniq = set(), []
+    for t in triples:
+        if tuple(t) not in seen:
+            seen.add(tuple(t))
+            uniq.append(t)
+    real = toy_run(uniq)
+    from core import run_driver
+    old = run_driver(["toy.pyold.ecdsa_sign_recoverable %d %d %d" % tuple(t) for t in uniq])
+    for t, I, O in zip(uniq, real, old):
+        line_args = "%d %d %d" % tuple(t)
+        rid = int(I[-2:], 16) if I.startswith("ok ") else None
+        info = {"fn": "toy.ecdsa_sign_recoverable", "args": line_args, "note": "toy curve", "py": I[:400], "recid": rid,
+                "old_model": O[:400]}
+        c.count(("toy.ecdsa_sign_recoverable", line_args), nontrivial=True)
+        c.tally("toy.ecdsa_sign_recoverable:" + ("recid %d" % rid if rid is not None else "reject"))
+        if rid is not None and rid >= 2:
+            c.tally("toy.ecdsa_sign_recoverable:x(R)>=n")
+        if O != I:
+            c.tally("toy.ecdsa_sign_recoverable:old search model differs (region of C08X `_partial`)")
+        c.expect("toy.py.ecdsa_sign_recoverable " + line_args, I, dict(info, tie="model-vs-py (toy curve)"), proven=False,
+                 op="toy.py.ecdsa_sign_recoverable")
+        c.expect("toy.contract.ecdsa_sign_recoverable " + line_args, I, dict(info, tie="contract-vs-py (toy curve)"),
+                 proven=False, op="toy.contract.ecdsa_sign_recoverable")
+
+
 def inplace_bytes_probe(x):
     """the in-place variants on an immutable bytes argument (C08-KF1, fixed by fixes/c08-kf1.diff: both backends
     raise and neither writes into the object; `case` demands that, no classifier any more)"""
@@ -469,6 +525,7 @@ def explore(c, scale):
         gen_ecdsa(x, 10 * scale)
         gen_schnorr(x, 8 * scale)
         gen_recoverable(x, 6 * scale)
+        gen_toy_signrec(x, scale)
         c.flush()
         # key.py's own field / curve arithmetic against its Lean model (Props/C08Y.lean)
         from embit.util import key as _key
@@ -510,6 +567,13 @@ def replay(path):
             args.append(int(t))
         elif t:
             args.append(bytes.fromhex(t))
+    if fn and fn.startswith("toy."):
+        from core import run_driver
+        t = [int(a) for a in toks if a]
+        print("py (toy):", toy_run([t])[0])
+        for o in ("py", "contract", "pyold"):
+            print("%-8s:" % o, run_driver(["toy.%s.ecdsa_sign_recoverable %d %d %d" % (o, *t)])[0])
+        return 0
     w = secpworker.Worker()
     inplace = info.get("inplace", False)
     print("py     :", w.run("py", fn, args, inplace))
